@@ -12,15 +12,49 @@ TRUSTED_BASE = [
     "Coq 8.16.1 kernel; no axioms (Print Assumptions: closed)",
     "hand-written model/SingleObject.v of single_object_encoding.rs over the models of the datum codec and of the fingerprint (C08), tied by the correspondence run",
     "extraction (ExtrOcamlBasic) + ocaml/driver.ml; Rust harness",
+    "the schemas whose fingerprint ends in 00 bytes are selected by the MODEL's fingerprint (CanonicalForm.fingerprint through `fp`); the search only filters candidates, the expected outcome (error) is that of C18_short / the model",
 ]
 ASSUMPTIONS = [
     "'a message written under a schema with a different canonical form is never decoded' holds up to collisions of the 64-bit checksum: the theorem states the exact check (C18_dec, C18_mismatch: different fingerprint => rejected); the run tests that generated pairs of schemas with different canonical forms have different fingerprints",
 ]
 
+def zero_tail_schemas(rng, tier):
+    """schemas whose datum has NO bytes (records without fields / of nulls / of such records, fixed of size 0) and whose
+    fingerprint -- computed by the model (CanonicalForm.fingerprint) -- ends in one or more 00 bytes: a header cut short of
+    exactly those bytes differs from the complete one only by bytes that a zero-filled buffer would supply.
+    -> [(nodes, evalue, number of trailing zero bytes)]"""
+    N = G.Node
+    salt = rng.randrange(10**6)
+    cands = []
+    for i in range(6000 if tier == "quick" else 300000):
+        nm = "Z%d_%d" % (salt, i)
+        shape = i % 4
+        if shape == 0:
+            cands.append(([N("record", name=nm, fields=[])], "(record)"))
+        elif shape == 1:
+            cands.append(([N("record", name=nm, fields=[("a", 1), ("b", 1)]), N("null")], "(record null null)"))
+        elif shape == 2:
+            cands.append(([N("record", name="ns." + nm, fields=[("inner", 1)]), N("record", name="ns.I" + nm, fields=[])], "(record (record))"))
+        else:
+            cands.append(([N("fixed", name=nm, size=0)], "(fixed x)"))
+    out = []
+    for (nodes, v), r in zip(cands, C.run_parallel(C.AVROMODEL, ["fp " + G.schema_sx(nodes) for nodes, _ in cands])):
+        p = C.parse_sx(r)[0]
+        if p[0] != "ok":
+            continue
+        fp = C.unhex(p[1])
+        z = len(fp) - len(fp.rstrip(b"\x00"))
+        if z:
+            out.append((nodes, v, z))
+    return out
+
 def run(ctx):
     rng = random.Random(ctx["seed"] * 1000003 + 18)
     n = 350 if ctx["tier"] == "quick" else 15000
     pairs = [G.schema_and_value(rng, layouts=False) for _ in range(n)]
+    zt = zero_tail_schemas(rng, ctx["tier"])
+    zero_tail = {G.schema_sx(nodes): z for nodes, v, z in zt}
+    pairs += [(nodes, v) for nodes, v, z in zt]
     sp = codec.spec_batch(pairs)
     enc_lines = ["sos %s %s" % (s["schema"], s["present"]) for s in sp]
     ei, em = codec.both(enc_lines)
@@ -57,6 +91,12 @@ def run(ctx):
         for tg, exp in (("any", s["dany"]), (s["ttarget"], s["dtyped"])):
             dec_lines.append("sod %s %s %s %s" % (s["schema"], tg, C.hx(msg), mode())); dec_meta.append(("valid", "(ok %s)" % exp))
         # truncations of the header and beyond, corrupted header bytes
+        if s["schema"] in zero_tail:
+            # every header length 0..9 x the slice and readers that deliver the header in one / several short reads
+            for k in range(10):
+                for m in ["slice", "(chunks 1)", "(chunks 3)", "(chunks 9)", "(chunks 4 5 1)", "(chunks 64)"]:
+                    dec_lines.append("sod %s %s %s %s" % (s["schema"], rng.choice(["any", s["ttarget"], "ignored"]), C.hx(msg[:k]), m))
+                    dec_meta.append(("short-header-zero-tail", "err"))
         for k in sorted(set([0, 1, 2, 5, 9] + [rng.randrange(0, 10)])):
             dec_lines.append("sod %s any %s %s" % (s["schema"], C.hx(msg[:k]), mode())); dec_meta.append(("short-header", "err"))
         for _ in range(3):
@@ -81,7 +121,9 @@ def run(ctx):
     samples = [{"message": C.hx(m[1])[:80], "fingerprint": C.hx(m[2])} for m in msgs[:4]]
     return {"evaluations": len(enc_lines) + len(dec_lines), "distinct_nontrivial": len(distinct),
             "rule": "schemas x values: message = C3 01 + fingerprint + extracted specification encoding; decoded back (dynamic and typed target) "
-                    "from a slice and from chunked readers; every header truncation length 0..9, single-byte header corruptions, messages "
+                    "from a slice and from chunked readers; every header truncation length 0..9, single-byte header corruptions; schemas with "
+                    "zero-byte datums whose (model-computed) fingerprint ends in 00 bytes, found by search: every header length 0..9 x {slice, "
+                    "1 / 3 / 9 / 4+5+1 / 64 bytes per read} must be rejected (the missing bytes are zeros); messages "
                     "written under a schema with a different canonical form must be rejected; distinct canonical forms must have distinct "
                     "fingerprints in the generated set; model vs crate",
             "samples": samples, "violations": violations, "model_diffs": diffs, "distribution": dict(dist)}
